@@ -468,6 +468,34 @@ def run(rep, facts, tier):
                     % (short(fn), w['field'][0]), fn, w['at'])
     rep.floor('C10 in-place overwrites of code / dict at build time', n_ow, 3)
 
+    # the step function patches an instruction of OLDER code in place (the `late` stub binds itself on its first call).  Code runs
+    # while a source is read - immediate words, meta blocks - and what it finds in the dictionary then may belong to a source that
+    # is rejected afterwards; the roll-back cannot take a patch back.  A patch for good happens only when no source is being read
+    # (any other patch is put back before the step returns)
+    from .c11 import runtime_patch_sites
+    from ..pathq import cmp_on_side
+    sf, psites, restores = runtime_patch_sites(fx, V, tracked)
+    srets = set(sf.return_blocks())
+    n_perm = 0
+    for bb, at, how in psites:
+        if bb in restores or (restores and exists_path_avoiding(sf, bb, lambda b: b in srets, restores) is None):
+            continue
+        n_perm += 1
+        idle = False
+        for (_b2, e, side) in edge_guards(sf, bb):
+            txt = expr_str(e, -14)
+            if isinstance(e, tuple) and e[0] == 'call' and e[1].endswith('::is_empty') and '.input' in txt and side:
+                idle = True
+            c = cmp_on_side(e, side)
+            if c and c[0] == 'Eq' and '.input' in txt and 'len' in txt and any(expr_str(x, -4) == '0' for x in (c[1], c[2])):
+                idle = True
+        rep.add('C10.R1', 'C10.R1:run-time-code-patch:%s:only-when-no-source-is-being-read' % how, idle,
+                'the stub binds itself for good only behind `input.is_empty()`' if idle else
+                'the step function patches an instruction for good (%s) also while a source is being read: `late v : getv v ;`, then the '
+                'rejected `7 var v : imm immediate getv drop ; imm zz` leaves getv bound to a variable of the rejected source - the cell the '
+                'roll-back gave back' % how, 'state::State::fetch_and_run', at)
+    rep.floor('C10.R1 permanent run-time patches of an instruction', n_perm, 1)
+
     # context_close: every path from nested.pop() to return assigns ctx
     fx.need(close)
     cf = V(close)
